@@ -55,6 +55,13 @@ def alloc_check(ctx):
     thorough = ctx.tier == 'thorough'
     r = ctx.tlc('MC_Alloc', CFG_ALLOC % (ctx.seed, 12 if thorough else 2))
     s = ctx.harness('alloccases', prop='C17', **{'in': r['out']})
+    viol17 = list(s['violations'])
+    # Score() on a stripe of all v4 effective classes (the number of highest-severity combinations scanned depends on the MacroVector)
+    from . import scorefam
+    r40 = scorefam.tlc40(ctx)
+    s40 = ctx.harness('sweep40', prop='C17', n=251 if thorough else 997, **{'in': r40['out']})
+    viol17 += list(s40['violations'])
+    s['compared']['Score() on a stripe of v4 classes'] = s40['evaluations']
     nmeas = sum(s['compared'].values())
     cov = dict(evaluations=nmeas, distinct_nontrivial=s['distinct_nontrivial'],
                rule='TLC (MC_Alloc) enumerates per version: base objects, each optional metric alone x each value (U:Clear/Green/Amber/Red '
@@ -65,7 +72,7 @@ def alloc_check(ctx):
                     'GOMAXPROCS(1); distinct_nontrivial = objects measured',
                samples=s['samples'], compared=s['compared'], states=ctx.states()[0], transitions=ctx.states()[1],
                traces_validated_against_impl=s['distinct'], exhaustive=False)
-    return core.finish(ctx, 'exploration', cov, list(s['violations']), [
+    return core.finish(ctx, 'exploration', cov, viol17, [
         'toolchain = the installed go; hooks compiled in (tag verif) but idle',
         'the specification states the budget and the pre-sizing mechanism only; nothing is model-checked about the Go allocator'])
 
